@@ -161,10 +161,42 @@ func checkChooseVersion(c *Ctx, r *Report) {
 			prov := "call:qrcode/encoder.chooseVersion(" + bits1 + ";" + A(ps[0]) + ")"
 			bits2 := "call:qrcode/encoder.calculateBitsNeeded(" + A(ps[1]) + ";" + A(ps[2]) + ";" + A(ps[3]) + ";" + prov + ")"
 			final := "call:qrcode/encoder.chooseVersion(" + bits2 + ";" + A(ps[0]) + ")"
+			other := ""
 			for _, rt := range s.rets {
-				if len(rt.Vals) >= 1 && rt.Vals[0].String() == final {
-					ok = true
+				if len(rt.Vals) < 1 {
+					continue
 				}
+				v := rt.Vals[0].String()
+				switch {
+				case v == final:
+					ok = true
+				case strings.HasPrefix(v, "nil"):
+					// error return
+				case v == prov:
+					// returning the provisional version is right only inside the first count-width class (versions 1..9)
+					safe := false
+					vn := polyAtom("call:(*qrcode/decoder.Version).GetVersionNumber(" + prov + ")")
+					for _, cd := range rt.Conds {
+						if condIs(cd, token.LEQ, vn, polyInt(9)) || condIs(cd, token.LSS, vn, polyInt(10)) {
+							safe = true
+						}
+						for k := int64(1); k < 9; k++ {
+							if condIs(cd, token.LEQ, vn, polyInt(k)) || condIs(cd, token.LSS, vn, polyInt(k)) {
+								safe = true
+							}
+						}
+					}
+					if !safe {
+						other = c.pos(rt.Stmt.Pos()) + ": the provisional version is returned without the second pass outside versions 1..9, where the count width differs from version 1's"
+					}
+				default:
+					other = c.pos(rt.Stmt.Pos()) + ": returns " + prettyPoly(rt.Vals[0]) + ", which is neither the two-pass result nor an error"
+				}
+			}
+			if other != "" {
+				r.Fail("M-FIRSTFIT-QR", key+"/other-returns", c.pos(fd.Pos()), "violation", other)
+			} else {
+				r.Pass("M-FIRSTFIT-QR", key+"/other-returns", c.pos(fd.Pos()), "")
 			}
 		}
 		r.Check(ok, "M-FIRSTFIT-QR", key, c.pos(fd.Pos()), "must return chooseVersion(bits at chooseVersion(bits at version 1, level), level): the second pass uses the count width of the provisional version")
